@@ -13,7 +13,7 @@ RULE = (
     "app2 and app11, modules m1, m11 and leaf, module package m2 with a sibling; app1/app11 and m1/m11 are string prefixes "
     "of each other) under each import graph of the tier's graph list (subsets of the 14-edge menu script->module, "
     "module->module, app->module, package->sibling, two-path diamond above a shared module with a further module below it); from the fully loaded "
-    "state every single edit and every pair of edits from {modify, touch (mtime only), delete, '#'-rename of a file, "
+    "state every single edit and every pair of edits from {modify, touch (mtime only, forwards and backwards), a changed global option, nothing, delete, '#'-rename of a file, "
     "'#'-rename of a package directory, remove / change an app's configuration} followed by pyscript.reload with "
     "global_ctx in {absent, '*', and context names of a script, a module, a package sibling, an app}; then a second "
     "round: one more edit and a default reload from the state reached. Oracle (ref/reloadmodel.py, written from the "
@@ -34,12 +34,14 @@ MENU = [("file.a", "modules.m1"), ("file.a", "modules.m2"), ("file.b", "modules.
         ("file.a", "modules.m11"), ("modules.m11", "modules.m2"), ("modules.m2", "modules.leaf"), ("apps.app11", "modules.m1"),
         ("file.b", "modules.m11"),
         # 14: a module reached only through a package's sub-file (file.a -> m2 -> m2.sib -> leaf)
-        ("modules.m2.sib", "modules.leaf")]
+        ("modules.m2.sib", "modules.leaf"),
+        # 15: a script whose only link to the package is a dotted submodule import
+        ("file.b", "modules.m2.sib")]
 
 
 def graphs(tier):
     full = list(range(len(MENU)))
-    base = [(), tuple(full), (0,), (0, 4), (0, 2, 4, 7), (5, 6), (1, 3, 8, 7), (0, 1, 4), (0, 4, 9, 10, 11), (5, 12, 2, 13, 10, 11), (1, 7, 14), (3, 8, 7, 14, 5)]
+    base = [(), tuple(full), (0,), (0, 4), (0, 2, 4, 7), (5, 6), (1, 3, 8, 7), (0, 1, 4), (0, 4, 9, 10, 11), (5, 12, 2, 13, 10, 11), (1, 7, 14), (3, 8, 7, 14, 5), (15,), (15, 7, 14, 0)]
     if tier == "quick":
         return base
     more = [(i,) for i in full] + [(i, j) for i, j in itertools.combinations(full, 2) if (i + j) % 3 == 0] + \
@@ -67,18 +69,37 @@ def src(ctx, gen, edges):
     for imp in edges.get(ctx, []):
         if imp.startswith("modules.") and imp.count(".") == 1:
             lines.append(f"import {imp.split('.')[1]}")
+        elif ctx.startswith(("file.", "scripts.")) and imp.count(".") == 2:
+            lines.append(f"from {imp.split('.', 1)[1]} import GEN as SUBGEN")  # from m2.sib import ...
         else:
             lines.append("from . import sib")
     return "\n".join(lines) + "\n"
 
 
 EDITS = [(k, p) for p in RM.FILES for k in ("MOD", "TOUCH", "DEL", "HASH")] + \
+        [("TOUCHBACK", "a.py"), ("TOUCHBACK", "modules/m1.py"), ("TOUCHBACK", "apps/app1/sib.py"), ("OPTCHG", None), ("NOOP", None)] + \
         [("HASHDIR", "apps/app1"), ("HASHDIR", "modules/m2"), ("CONFDEL", "app1"), ("CONFCHG", "app1"), ("CONFDEL", "app2"), ("CONFCHG", "app2"), ("CONFCHG", "app11")]
 RELOADS = [None, "*", "file.a", "modules.m1", "modules.m2.sib", "apps.app1", "file.nosuch"]
 
 
 def apply_edit(w, m, edit, edges):
     kind, target = edit
+    if kind == "NOOP":
+        return True
+    if kind == "OPTCHG":
+        w.conf["allow_all_imports"] = not w.conf.get("allow_all_imports", False)
+        m.options_changed = True
+        return True
+    if kind == "TOUCHBACK":
+        # same text, OLDER modification time (restored from a backup, checked out again)
+        f = m.files.get(target)
+        if f is None or not m.visible(target):
+            return False
+        fp = os.path.join(w.psdir, target)
+        old = os.path.getmtime(fp) - 1000
+        os.utime(fp, (old, old))
+        f["mtime"] = old
+        return True
     if kind in ("MOD", "TOUCH", "DEL", "HASH"):
         f = m.files.get(target)
         if f is None or not m.visible(target):
@@ -141,7 +162,11 @@ def run_case(graph, edits1, reload1, edit2, legacy=False):
         got0 = set(loaded_contexts(w))
         if got0 != set(m.loaded):
             return {"kind": "initial-load", "expected": sorted(m.loaded), "observed": sorted(got0)}, None
-        rounds = [(edits1, reload1)] + ([((edit2,), None)] if edit2 else [])
+        if edit2 and isinstance(edit2[0], (list, tuple)):
+            later = [((tuple(e),), None) for e in edit2]  # a chain of further rounds, one edit + default reload each
+        else:
+            later = [((edit2,), None)] if edit2 else []
+        rounds = [(edits1, reload1)] + later
         outcome = []
         for rnd, (edits, rel) in enumerate(rounds):
             applied = [apply_edit(w, m, e, edges) for e in edits]
@@ -200,11 +225,17 @@ def cases(tier):
                     continue
                 out.append((g, (e1, e2), None, None))
         # second round: an edit + default reload from the state reached
-        second = EDITS if tier == "thorough" else EDITS[::3]
+        second = EDITS if tier == "thorough" else EDITS[::3] + [("NOOP", None)]
         for e in singles[:: (1 if tier == "thorough" else 2)]:
             for e2 in second:
                 if gi in (1, 8) or tier == "thorough" and gi % 5 == 0:
                     out.append((g, e, None, e2))
+        # three rounds: a plain reload first (so that the integration has remembered its options), then a changed option, then nothing
+        for first in (("NOOP", None), ("TOUCH", "a.py"), ("MOD", "modules/m1.py")):
+            for second in (("OPTCHG", None), ("CONFCHG", "app1"), ("TOUCHBACK", "a.py")):
+                for third in (("NOOP", None), ("TOUCH", "b.py"), ("OPTCHG", None)):
+                    if tier == "thorough" or gi in (1, 8):
+                        out.append((g, (first,), None, (second, third)))
     return out
 
 
@@ -229,7 +260,8 @@ def run_shard(shard):
         res.case((g, edits, rel, e2, repr(outcome)), nontrivial=bool(outcome) and any(o[0] for o in outcome), transitions=len(edits) + 1 + (2 if e2 else 0),
                  config="round2" if e2 else ("pair" if len(edits) > 1 else "single"), sample=case)
         if fail:
-            kinds = "+".join(sorted({e[0] for e in edits} | ({e2[0]} if e2 else set())))
+            e2kinds = ({e2[0]} if e2 and not isinstance(e2[0], (list, tuple)) else {x[0] for x in (e2 or ())})
+            kinds = "+".join(sorted({e[0] for e in edits} | e2kinds))
             res.fail(f"{fail['kind']}|{kinds}|reload={rel}", case, expected=fail.get("expected"), observed=fail.get("observed"), detail=fail)
     return res
 
